@@ -283,6 +283,9 @@ func Main(args []string) error {
 }
 
 // fix fills in what TLC's JSON leaves out (empty sequences are fine; nil sub-sets are not).
+// Fix fills in what TLC's JSON leaves out.
+func Fix(ss *SelSet) { fix(ss) }
+
 func fix(ss *SelSet) {
 	if ss.Sels == nil {
 		ss.Sels = []*Sel{}
